@@ -17,9 +17,13 @@ def run(model, rep, tier):
     tsrules.record_units(rep, tsrules.exploration(ctx))
     r2_r3_no_test_after_stop(ctx, rep)
     r4_no_further_layer(ctx, rep)
-    rep.rule('C16.R5', 'the layers that were set up are still torn down after the loop was left')
+    rep.rule('C16.R5', 'the layers that were set up are still torn down after the loop was left; '
+             'a layer whose setUp returned is recorded before a further setUp is attempted, so a layer '
+             'set-up failure (a bad outcome that stops the run) leaves no layer behind that the final '
+             'tear-down does not know')
     from . import c01, c02
     c01.r6_final_teardown(ctx, rep, R='C16.R5')
+    c01.recorded_before_next_hook(ctx, rep, 'C16.R5')
     c02.r1_verdict_expression(ctx, rep, R='C16.R6')
     rep.units['cfg'] = ctx.cfg_stats
 
